@@ -19,6 +19,7 @@ import (
 	"crypto/tls"
 	"fmt"
 	"net"
+	"net/http"
 	"strconv"
 	"strings"
 	"time"
@@ -197,13 +198,21 @@ func NewServer(conf config.Config, info app.ServerInfo, logger *Logger.Logger) (
 		// api for query current runtime config
 		s.httpService.Handler.AddRoutes(httpd.Route{
 			Name: "query-runtime-config", Method: "GET", Pattern: "/runtime_config", LoggingEnabled: true,
-			HandlerFunc: runtimecfg.RuntimeConfigHandler(s.runtimeCfgService, c.Limits),
+			HandlerFunc: authenticatedHandler(runtimecfg.RuntimeConfigHandler(s.runtimeCfgService, c.Limits)),
 		})
 	}
 
 	s.initRecordWriterService()
 	util.SetTopoManagerUrl(c.Topo.TopoManagerUrl)
 	return s, nil
+}
+
+// authenticatedHandler gives a plain handler the signature that httpd.Handler.AddRoutes wraps with
+// authentication, so that the route is not public when auth-enabled is set.
+func authenticatedHandler(inner func(http.ResponseWriter, *http.Request)) func(http.ResponseWriter, *http.Request, meta2.User) {
+	return func(w http.ResponseWriter, r *http.Request, _ meta2.User) {
+		inner(w, r)
+	}
 }
 
 func newServer(info app.ServerInfo, logger *Logger.Logger, c *config.TSSql, metaMaxConcurrentWriteLimit int) *Server {
